@@ -192,7 +192,7 @@ def do_build(conv: Any, k: int) -> Tuple:
         return ("err", type(e).__name__)
 
 
-CUSTOM_VARIANTS = ["position", "range", "severity"]
+CUSTOM_VARIANTS = ["position", "range", "severity", "primitives"]
 
 
 def customise(conv: Any, variant: str = "position") -> None:
@@ -222,6 +222,16 @@ def customise(conv: Any, variant: str = "position") -> None:
 
         conv.register_structure_hook(lsp.DiagnosticSeverity, sev_s)
         conv.register_unstructure_hook(lsp.DiagnosticSeverity, sev_u)
+    elif variant == "primitives":
+        # hooks for JSON primitives: a strict bool and rounded floats
+        def strict_bool(o: Any, _t: Any) -> bool:
+            if not isinstance(o, bool):
+                raise ValueError(f"not a bool: {o!r}")
+            return o
+
+        conv.register_structure_hook(bool, strict_bool)
+        conv.register_unstructure_hook(float, lambda v: round(v, 1) + 1000.0)
+        conv.register_unstructure_hook(str, lambda v: v if len(v) < 3 else v[:-1] + v[-1].upper())
     else:
         raise ValueError(variant)
 
@@ -332,11 +342,13 @@ def gen_run(run_seed: int, tier: str) -> Dict[str, Any]:
     nS, nB = len(battery.STRUCT), len(battery.BUILD)
 
     shape = r_ops.choices(
-        ["concurrent_first", "late_joiner", "single_history", "burst", "shared_user"],
-        weights=[40, 15, 20, 5, 20],
+        ["concurrent_first", "late_joiner", "single_history", "burst", "shared_user", "big_payload"],
+        weights=[38, 14, 19, 5, 19, 5],
     )[0]
     if shape in ("single_history", "burst"):
         n = 1
+    elif shape == "big_payload":
+        n = r_ops.choice([2, 2, 3])
     else:
         n = r_ops.choice([2, 2, 2, 3, 3, 4, 5, 6])
     n_shared = 0
@@ -351,11 +363,23 @@ def gen_run(run_seed: int, tier: str) -> Dict[str, Any]:
     shared_dv = [rand_cfg() for _ in range(n_shared)]
     shared_custom = [r_ops.choice(CUSTOM_VARIANTS) if r_ops.random() < 0.25 else None for _ in range(n_shared)]
 
+    base_n = N_BASE_STRUCT - len(battery.BIG)
+    small_invalid = [i for i, b in enumerate(battery.STRUCT[:base_n]) if b[0] in ("position-neg", "position-big", "position-missing", "diagnostic-bad-sev", "null-required", "wrong-shape-list")]
+
+    def pick_k() -> int:
+        x = r_ops.random()
+        if x < 0.04 and battery.BIG:
+            return r_ops.choice(battery.BIG)
+        if x < 0.12 and small_invalid:
+            return r_ops.choice(small_invalid)
+        k = r_ops.randrange(nS - len(battery.BIG))
+        return k if k < base_n else k + len(battery.BIG)  # skip over the big block
+
     def use_ops(slot: int, count: int) -> List[List[Any]]:
         ops = []
         for _ in range(count):
             if r_ops.random() < 0.8:
-                ops.append(["USE", slot, r_ops.randrange(nS)])
+                ops.append(["USE", slot, pick_k()])
             else:
                 ops.append(["BUILD", slot, r_ops.randrange(nB)])
         return ops
@@ -376,7 +400,18 @@ def gen_run(run_seed: int, tier: str) -> Dict[str, Any]:
     for t in range(n):
         ops: List[List[Any]] = []
         nslots = 0
-        if shape == "burst":
+        if shape == "big_payload":
+            # one thread structures a very large payload while the others handle small (also invalid)
+            # messages on their own converters
+            ops.append(get_op(0, allow_shared=False))
+            if t == 0:
+                ops.append(["USE", 0, r_ops.choice(battery.BIG)])
+                ops += use_ops(0, 1)
+            else:
+                for _ in range(r_ops.randint(2, 5)):
+                    ops.append(["USE", 0, r_ops.choice(small_invalid) if r_ops.random() < 0.6 else pick_k()])
+            nslots = 1
+        elif shape == "burst":
             m = r_ops.choice([8, 33, 64, 100, 128])
             ops.append(["GET", 0, "fresh", None])
             ops += use_ops(0, 2)
@@ -1211,7 +1246,7 @@ def main(argv: List[str]) -> int:
                 if r.get("digest") != by_seed[sample[i]].get("digest"):
                     det_mismatch += 1
                     rep.harness_error(
-                        f"determinism: run_seed={sample[i]} gave digest {by_seed[sample[i]].get('digest')} then {r.get('digest')}"
+                        f"determinism: run_seed={sample[i]} gave digest {by_seed[sample[i]].get('digest')} then {r.get('digest')}", soft=True
                     )
             fs = sample[: max(8, cfg["det"] // 4)]
             fd = fresh_digests(fs, tier, "5")
@@ -1220,7 +1255,7 @@ def main(argv: List[str]) -> int:
                 if fd.get(str(s)) != by_seed[s].get("digest"):
                     det_mismatch += 1
                     rep.harness_error(
-                        f"determinism (fresh interpreter, PYTHONHASHSEED=5): run_seed={s} {by_seed[s].get('digest')} vs {fd.get(str(s))}"
+                        f"determinism (fresh interpreter, PYTHONHASHSEED=5): run_seed={s} {by_seed[s].get('digest')} vs {fd.get(str(s))}", soft=True
                     )
         except core.HarnessError as e:
             rep.harness_error(str(e))
@@ -1266,7 +1301,7 @@ def main(argv: List[str]) -> int:
             p = subprocess.run([sys.executable, "-m", "sim.c19", "--replay", str(path)], cwd=str(core.VERIF),
                                capture_output=True, text=True, timeout=300)
             if p.returncode != core.EXIT_VIOLATION:
-                rep.harness_error(f"replay file {path} did not reproduce in a fresh process: rc={p.returncode} {p.stdout[-300:]}")
+                rep.harness_error(f"replay file {path} did not reproduce in a fresh process: rc={p.returncode} {p.stdout[-300:]}", soft=True)
 
     # ---- evidence --------------------------------------------------------------------------------
     wall = time.monotonic() - t_start
